@@ -13,7 +13,7 @@ OUT_PROOF = """proof {
 UNIT = Unit(
     name="applychk", lemma_obs=['lemma_tx_conserves'], uses="group_core_axioms",
     prelude=["core.rs", "raw.rs", "iter.rs", "crypto.rs", "state_abs.rs", "melvm_abs.rs", "txmethods.rs"],
-    lemmas=["sums.rs", "iterlem.rs", "coinsview.rs", "header.rs", "txroot_opaque.rs", "seal_opaque.rs", "tips.rs", "apply.rs", "apply_c04.rs"],
+    lemmas=["sums.rs", "iterlem.rs", "coinsview.rs", "header.rs", "txroot_opaque.rs", "seal_opaque.rs", "tips.rs", "apply.rs", "apply_c04.rs", "stateinv.rs", "batch_opaque.rs", "sealenv_opaque.rs", "chaininv.rs", "chainlem.rs", "feemul.rs", "seal_def.rs"],
     items=[
         TypeItem(S, "struct", "UnsealedState"),
         TypeItem(S, "enum", "StateError", derive="#[derive(Clone, Copy, PartialEq, Eq, Structural)]"),
@@ -22,8 +22,8 @@ UNIT = Unit(
         TypeItem("lib/melvm/src/lib.rs", "struct", "CovenantEnv"),
         Fn("src/smtmapping.rs", "get", impl="SmtMapping", mode="assume", wrap=SMT_WRAP, **smt_get()),
         Fn("lib/tip911-stakeset/src/lib.rs", "get_stake", impl="StakeSet", mode="assume", **ss_get_stake()),
-        Fn(S, "seal", impl="UnsealedState", mode="assume", sig_subst=[("mut self", "self")], **st_seal()),
-        Fn(S, "header", impl="SealedState", mode="assume", **st_header()),
+        Fn(S, "seal", impl="UnsealedState", mode="assume", sig_subst=[("mut self", "self")], **st_seal_full()),
+        Fn(S, "header", impl="SealedState", mode="assume", **st_header_full()),
         Fn("lib/melvm/src/lib.rs", "from_bytes", impl="Covenant", mode="assume", **mv_from_bytes()),
         Fn("lib/melvm/src/lib.rs", "execute", impl="Covenant", mode="assume", **mv_execute()),
         Fn("lib/melvm/src/value.rs", "into_bool", impl="Value", mode="assume", **mv_into_bool()),
@@ -60,7 +60,8 @@ UNIT = Unit(
                                    None => coin_data.covhash == spec_coin_destroy() } })""", "C02", "C01")])]),
         Fn(A, "check_tx_validity", home="C04", implicit_props=("C09", "C04", "C13", "C01"), **ap_check_tx_validity(),
            rewrites=[("R4", 0)],
-           closures=[Closure(0, "", "(r: Header)", ensures=[C("sealhdr", "r == spec_header(spec_seal(*this, None))", "C04")])],
+           closures=[Closure(0, "", "(r: Header)", requires=[C("fallback", "seal_fallback_pre(*this)", note="the fallback seals a clone of this very state: it needs what sealing needs")],
+                             ensures=[C("sealhdr", "r == spec_header(spec_seal(*this, None))", "C04")])],
            injects=[Inject("entry", "let ghost rel = relevant_coins@;"),
                     Inject(("after_let", "last_header"), "proof { assert(last_header == spec_last_header(*this)); }"),
                     Inject(("before", "let amount"), """proof { let n = spend_idx as int;
